@@ -1,2 +1,204 @@
-//! harnesses mounted into the crate (see DESIGN.md 3.1)
+//! LFUPolicy-level harnesses (C01 add step, C07 rule, C15 worker, C17 policy metrics) and the
+//! policy fixture used by the cache-level harnesses. Child of `crate::policy::sync`.
 #![allow(dead_code, unused_imports)]
+use super::*;
+use crate::policy::verif_harness::{any_slfu, any_tinylfu, ghost_get, ghost_sum, slfu_sum, COST_MAX};
+use crate::policy::{PolicyPair, SampledLFU, TinyLFU};
+use crate::verif_env::{chan, mrec, HS};
+use crate::verif_nd::{self as nd, harness, vassert, vcover};
+
+#[cfg(kani)]
+use crate::verif_env::stubs;
+
+/// An `LFUPolicy` wired as `with_hasher` wires it, but WITHOUT spawning the worker thread
+/// (Kani cannot execute threads): the harness plays the worker with the real
+/// `PolicyProcessor::handle_items`.
+pub(crate) fn mk_policy(admit: TinyLFU, costs: SampledLFU<HS>, metrics: Arc<Metrics>) -> (LFUPolicy<HS>, PolicyProcessor<HS>) {
+    let mut costs = costs;
+    costs.metrics = metrics.clone();
+    let inner = Arc::new(Mutex::new(PolicyInner { admit, costs }));
+    let (items_tx, items_rx) = bounded(3);
+    let (stop_tx, stop_rx) = stop_channel();
+    let proc_ = PolicyProcessor::new(inner.clone(), items_rx, stop_rx);
+    (
+        LFUPolicy { inner, items_tx, stop_tx, is_closed: AtomicBool::new(false), metrics },
+        proc_,
+    )
+}
+
+/// native replay only: what the real `push` put on the policy's queue
+pub(crate) fn worker_try_recv(w: &PolicyProcessor<HS>) -> Option<Vec<u64>> {
+    w.items_rx.try_recv().ok()
+}
+
+pub(crate) fn policy_used(p: &LFUPolicy<HS>) -> i64 {
+    p.inner.lock().costs.used
+}
+pub(crate) fn policy_len(p: &LFUPolicy<HS>) -> usize {
+    p.inner.lock().costs.key_costs.len()
+}
+/// (sum of per-entry charges, number of entries, all non-negative)
+pub(crate) fn policy_sum(p: &LFUPolicy<HS>) -> (i64, usize, bool) {
+    slfu_sum(&p.inner.lock().costs)
+}
+pub(crate) fn policy_estimate(p: &LFUPolicy<HS>, k: u64) -> i64 {
+    p.inner.lock().admit.estimate(k)
+}
+pub(crate) fn policy_w(p: &LFUPolicy<HS>) -> usize {
+    p.inner.lock().admit.w
+}
+
+/// Contract stub for `LFUPolicy::add` (DESIGN 3.7), written over the same real `PolicyInner`:
+/// an over-approximation of every admission/eviction decision the real `add` can take.
+#[cfg(kani)]
+pub(crate) fn add_contract<S: BuildHasher + Clone + 'static>(p: &LFUPolicy<S>, key: u64, cost: i64) -> (Option<Vec<PolicyPair>>, bool) {
+    let mut inner = p.inner.lock();
+    let max_cost = inner.costs.get_max_cost();
+    if cost > max_cost {
+        return (None, false);
+    }
+    if inner.costs.update(&key, cost) {
+        return (None, false);
+    }
+    if inner.costs.room_left(cost) >= 0 {
+        inner.costs.increment(key, cost);
+        p.metrics.add(MetricType::CostAdd, key, cost as u64);
+        return (None, true);
+    }
+    let mut victims = Vec::new();
+    let mut round = 0;
+    while round < 2 {
+        if nd::any_bool() {
+            // an arbitrary resident
+            let pick = nd::any_usize_in(0, 2);
+            let mut chosen: Option<(u64, i64)> = None;
+            let mut i = 0;
+            for (k, c) in inner.costs.key_costs.iter() {
+                if i == pick {
+                    chosen = Some((*k, *c));
+                }
+                i += 1;
+            }
+            if let Some((vk, vc)) = chosen {
+                if let Some(c) = inner.costs.remove(&vk) {
+                    p.metrics.add(MetricType::CostEvict, vk, c as u64);
+                    p.metrics.add(MetricType::KeyEvict, vk, 1);
+                }
+                victims.push(PolicyPair { key: vk, cost: vc });
+            }
+        }
+        round += 1;
+    }
+    if nd::any_bool() {
+        nd::assume(inner.costs.room_left(cost) >= 0);
+        inner.costs.increment(key, cost);
+        p.metrics.add(MetricType::CostAdd, key, cost as u64);
+        (Some(victims), true)
+    } else {
+        p.metrics.add(MetricType::RejectSets, key, 1);
+        (Some(victims), false)
+    }
+}
+
+/// standard stub set for harnesses that touch locks and (noop) metrics
+macro_rules! policy_harness {
+    ([$($k:meta),* $(,)?] fn $name:ident() $body:block) => {
+        harness! {
+            [kani::stub(std::sync::Arc::drop_slow, stubs::arc_drop_slow),
+             kani::stub(parking_lot::RawMutex::lock_slow, stubs::mutex_lock_slow),
+             kani::stub(parking_lot::RawMutex::unlock_slow, stubs::mutex_unlock_slow),
+             kani::stub(parking_lot::RawRwLock::lock_shared_slow, stubs::rw_lock_shared_slow),
+             kani::stub(parking_lot::RawRwLock::lock_exclusive_slow, stubs::rw_lock_exclusive_slow),
+             kani::stub(parking_lot::RawRwLock::unlock_shared_slow, stubs::rw_unlock_shared_slow),
+             kani::stub(parking_lot::RawRwLock::unlock_exclusive_slow, stubs::rw_unlock_exclusive_slow),
+             kani::stub(crate::metrics::Metrics::add, mrec::add),
+             kani::stub(crate::metrics::Metrics::is_op, mrec::is_op),
+             $($k),*]
+            fn $name() $body
+        }
+    };
+}
+pub(crate) use policy_harness;
+
+policy_harness! {
+    [kani::unwind(6)]
+    fn c15_worker_applies() {
+        // the policy worker applies a flushed batch: every key of the batch is recorded
+        let m = Arc::new(mrec::make(false));
+        let mut admit = any_tinylfu(4, 9);
+        admit.clear();
+        nd::assume(admit.samples > 4);
+        let (s, _e) = any_slfu(0);
+        let (p, w) = mk_policy(admit, s, m);
+        let k = nd::any_u64();
+        let n = nd::any_usize_in(1, 3);
+        let b = [nd::any_u64(), nd::any_u64(), nd::any_u64()];
+        let mut batch = Vec::with_capacity(3);
+        let mut cnt = 0i64;
+        let mut i = 0;
+        while i < n {
+            batch.push(b[i]);
+            if b[i] == k {
+                cnt += 1;
+            }
+            i += 1;
+        }
+        if nd::any_bool() {
+            w.handle_items(Ok(batch));
+            vassert!(policy_estimate(&p, k) >= cnt, "once a flushed batch is processed the key's estimate reflects those lookups");
+            vassert!(policy_w(&p) == n, "every lookup of the batch counts toward the aging period");
+            vcover!(cnt == 3, "same key three times");
+            vcover!(cnt == 0, "key not in batch");
+        } else {
+            w.handle_items(Err(crossbeam_channel::RecvError));
+            vassert!(policy_estimate(&p, k) == 0 && policy_w(&p) == 0, "a receive error changes nothing and does not panic");
+            vcover!(true, "error path");
+        }
+    }
+}
+
+policy_harness! {
+    [kani::unwind(6)]
+    fn c01_policy_ops() {
+        // the policy's locked wrappers around SampledLFU: remove / update / clear / cost /
+        // contains / cap / max_cost / update_max_cost from an arbitrary I-P state
+        let m = Arc::new(mrec::make(false));
+        let (s, ents) = any_slfu(3);
+        let mc0 = s.get_max_cost();
+        let (p, _w) = mk_policy(any_tinylfu(1, 6), s, m);
+        let k = nd::any_u64();
+        let c = nd::any_i64_in(0, COST_MAX);
+        let before = ghost_get(&ents, k);
+        let used0 = ghost_sum(&ents);
+        vassert!(p.contains(&k) == before.is_some(), "contains reports residency");
+        vassert!(p.cost(&k) == before.unwrap_or(-1), "cost reports the per-entry charge, -1 when absent");
+        vassert!(p.cap() == mc0 - used0, "cap is max_cost minus the charged total");
+        vassert!(p.max_cost() == mc0, "max_cost() reports the configured value");
+        let op = nd::any_u8_in(0, 3);
+        if op == 0 {
+            p.remove(&k);
+            vassert!(!p.contains(&k) && policy_used(&p) == used0 - before.unwrap_or(0), "remove releases exactly the entry's charge");
+            vcover!(before.is_some(), "removed a resident");
+        } else if op == 1 {
+            p.update(&k, c);
+            if before.is_some() {
+                vassert!(p.cost(&k) == c && policy_used(&p) == used0 - before.unwrap() + c, "update re-charges the entry");
+            } else {
+                vassert!(!p.contains(&k) && policy_used(&p) == used0, "update of an absent key changes nothing");
+            }
+            vcover!(before.is_some(), "updated a resident");
+        } else if op == 2 {
+            p.clear();
+            vassert!(policy_used(&p) == 0 && policy_len(&p) == 0, "clear releases every charge");
+            vassert!(policy_estimate(&p, k) == 0, "clear zeroes the popularity estimator");
+            vcover!(used0 > 0, "clear of a charged policy");
+        } else {
+            let m2 = nd::any_i64_in(-COST_MAX, COST_MAX);
+            p.update_max_cost(m2);
+            vassert!(p.max_cost() == m2 && p.cap() == m2 - used0, "update_max_cost takes effect for the next computation");
+            vcover!(m2 < used0, "lowered below the charged total");
+        }
+        let (sum, _n, nonneg) = policy_sum(&p);
+        vassert!(policy_used(&p) == sum && nonneg, "I-P: charged total equals the sum of per-entry charges");
+    }
+}
